@@ -295,27 +295,51 @@ def r3_generic(ctx, key, piece, label, expect_pinned, pseudo_name):
             ctx.violation(R, key + ':push-source:' + kind, '%s: the pushed source square is not the loop square' % label, where(body, line))
         pl = lambda mask: call(pseudo_name, SRC, STM, ('field', B, 'combined'), mask)
         if kind == 'unpinned':
-            # moves = pseudo_legals(src, color, combined, mask) & check_mask   (or the check mask folded into `mask`)
-            ok = False
-            parts = list(mv[2]) if mv[0] == 'bb' and mv[1] == '&' else [mv]
-            pls = [x for x in parts if x[0] == 'call' and x[1] == pseudo_name]
-            rest = [x for x in parts if not (x[0] == 'call' and x[1] == pseudo_name)]
-            split = None
-            if len(pls) == 1 and pls[0][2][:3] == (SRC, STM, ('field', B, 'combined')):
-                mask_arg = pls[0][2][3]
-                if mask_arg == ('param', 3) and len(rest) == 1:
-                    sp = strip_ite_incheck(rest[0])
-                    if sp and check_mask_ok(sp[0], B, ksq) and sp[1] == ('bball',):
-                        ok = True
-                elif mask_arg == ('param', 3) and not rest:
-                    # no check mask on this path: only acceptable when the path is `!IN_CHECK`
-                    if all(any(match(INCHECK, cn) is not None and tv is False for cn, tv in lits) for lits in conds):
-                        ok = True
-                elif mask_arg[0] == 'bb' and mask_arg[1] == '&' and ('param', 3) in mask_arg[2] and not rest:
-                    cmk = [x for x in mask_arg[2] if x != ('param', 3)]
-                    if len(cmk) == 1 and check_mask_ok(cmk[0], B, ksq) and \
-                            all(any(match(INCHECK, cn) is not None and tv is True for cn, tv in lits) for lits in conds):
-                        ok = True
+            # moves = pseudo_legals(src, color, combined, mask) & check_mask, with the check mask applied exactly when in
+            # check -- wherever it is applied (as an operand, folded into `mask`, or hoisted into a local chosen by IN_CHECK).
+            # The move set is specialised for IN_CHECK = true / false (only the values the path allows) and flattened.
+            def spec(e, val):
+                if not isinstance(e, tuple) or not e:
+                    return e
+                if e[0] == 'ite' and match(INCHECK, e[1]) is not None:
+                    cs = dict(e[2])
+                    pick = cs.get('otherwise', cs.get(1)) if val else cs.get(0, cs.get('otherwise'))
+                    return spec(pick, val)
+                return tuple(spec(x, val) if isinstance(x, tuple) else x for x in e)
+
+            def allowed_vals(lits):
+                vals = {True, False}
+                for cn, tv in lits:
+                    if match(INCHECK, cn) is not None:
+                        vals &= {bool(tv)}
+                return vals
+            ok = True
+            seen_modes = set()
+            for lits in conds:
+                for mode in allowed_vals(lits):
+                    seen_modes.add(mode)
+                    mvs = bb(spec(mv, mode), an)
+                    parts = list(mvs[2]) if mvs[0] == 'bb' and mvs[1] == '&' else [mvs]
+                    pls = [x for x in parts if x[0] == 'call' and x[1] == pseudo_name]
+                    rest = [x for x in parts if not (x[0] == 'call' and x[1] == pseudo_name)]
+                    if len(pls) != 1 or tuple(pls[0][2][:3]) != (SRC, STM, ('field', B, 'combined')):
+                        ok = False
+                        continue
+                    marg = bb(spec(pls[0][2][3], mode), an)
+                    mparts = list(marg[2]) if marg[0] == 'bb' and marg[1] == '&' else [marg]
+                    allp = [x for x in mparts + rest if x != ('bball',)]
+                    masks = [x for x in allp if x == ('param', 3)]
+                    cms = [x for x in allp if x != ('param', 3)]
+                    if len(masks) < 1:
+                        ok = False
+                    if mode:
+                        if not (len(cms) >= 1 and all(check_mask_ok(x, B, ksq) for x in cms)):
+                            ok = False
+                    else:
+                        if cms:
+                            ok = False
+            if not seen_modes:
+                ok = False
             if ok:
                 ctx.ok(R, '%s: unpinned moves = pseudo_legals(src, colour, occupancy, mask) & check mask (between(checker, king) + checker when in check)' % label,
                        where(body, line))
@@ -464,6 +488,9 @@ def king(ctx):
     base = mk('&', [call('magic::get_king_moves', ksq), ('param', 3)])
     pl = call('<movegen::piece_type::KingType as %s>::pseudo_legals' % PT, ksq, STM, ('field', B, 'combined'), ('param', 3))
     filt = [l for l in loops if bb(l['source'], an) in (base, ) or match(pl, bb(l['source'], an)) is not None]
+    if not loops:
+        ctx.inconclusive(R, '%s: the king destinations are not filtered by a `for` loop (iterator-adaptor form is not analysed)' % key)
+        return
     if len(filt) != 1:
         ctx.violation(R, key + ':filter-loop', 'king destinations are not filtered in a loop over pseudo_legals(king square): sources %s' % (
             [sh(bb(l['source'], an), 120) for l in loops]), w)
